@@ -1,4 +1,4 @@
-import MosnVerif.Lemmas.FilterSpec
+import MosnVerif.Lemmas.FilterAnnot
 /-!
 # C14 — stream filters run in order, and a denied request is never forwarded (property theorems only)
 
@@ -89,6 +89,18 @@ theorem spec_safety_holds_on_model (c : Cfg) (n : Nat) : specSafety c (flat (run
 configuration the worker does not abandon (see `single_reply_partial`). -/
 theorem spec_holds_on_model (c : Cfg) (hex : (final c).exhausted = false) : spec c (flat (trace c)) = true :=
   spec_final c hex
+
+/-- the verdict annotation `mosnmodel` recomputes from the scripts (by counting invocations) reproduces the verdicts
+the model recorded — so the predicate evaluated by the driver on a token list that AGREES with the model is exactly the
+predicate of the two theorems above: on the unchanged tree an `A` line is an `S` line. -/
+theorem annot_reproduces_model (c : Cfg) (n : Nat) :
+    annot c ((flat (run c n init).trace).map Obs.raw) = flat (run c n init).trace := annot_flat c n
+
+theorem agree_implies_spec (c : Cfg) (impl : List Raw) (h : impl = (flat (trace c)).map Obs.raw)
+    (hex : (final c).exhausted = false) : spec c (annot c impl) = true := by
+  subst h
+  have : annot c ((flat (trace c)).map Obs.raw) = flat (trace c) := annot_flat c fuel
+  rw [this]; exact spec_final c hex
 
 /-! ### non-vacuity: concrete chains (the repaired defect, a re-match that resumes, a forwarded request) -/
 
